@@ -104,6 +104,35 @@ def fn_proof_perturbed(unit, f, safety=False):
     return bool(ch) and all((it.get('restructured') and it.get('perturbed')) or it.get('dropped') or (it.get('rearranged') and not safety) for it in ch)
 
 
+def only_foreign_clauses(unit, texts_, pid):
+    """True when every failure reported for the function is a failed postcondition whose clause carries an `//@ONLY Cxx ..`
+    mark (the clause serves those properties only) and pid is not among them. The function's other postconditions were
+    proved; what failed is another property's business."""
+    if not texts_ or len(texts_) >= 5:      # --multiple-errors 5: the list may be cut short
+        return False
+    lines = unit.text.split('\n')
+    for tx in texts_:
+        first = tx.strip().split('\n')[0]
+        if 'postcondition not satisfied' not in first:
+            return False
+        m = re.search(r'-->\s*[^:\s]+:(\d+):\d+', tx)
+        if not m:
+            return False
+        k = int(m.group(1)) - 2          # 0-based index of the line above the clause
+        tags = None
+        while k >= 0:
+            ln = lines[k].strip()
+            if ln.startswith('//@ONLY'):
+                tags = ln[len('//@ONLY'):].split()
+                break
+            if ln.startswith('//') or ln == '' or ln.startswith('ensures') or ln.startswith('requires'):
+                break
+            k -= 1
+        if not tags or pid in tags:
+            return False
+    return True
+
+
 def sha(path):
     try:
         return hashlib.sha256(open(path, 'rb').read()).hexdigest()
@@ -309,6 +338,10 @@ def run_check(pid, pc, tier, seed, repo, work, t0, replay):
                     continue
                 # a failed *safety* obligation of executable code (overflow, index, division, shift) does not lean on the arrangement
                 # the way a postcondition proof does: it is reported even for a rearranged function (unless proof statements were lost)
+                if only_foreign_clauses(r.unit, texts_, pid):
+                    undecided.append('unit %s: %s: only postconditions that serve other properties (//@ONLY marks) failed; the clauses this '
+                                     'property rests on were proved' % (u, f))
+                    continue
                 safety = any(re.search(r'possible arithmetic underflow/overflow|possible division by zero|index out of bounds|possible bit shift|possible truncation', x) for x in texts_)
                 if fn_proof_perturbed(r.unit, f, safety):
                     undecided.append('unit %s: %s failed, but the edit only rearranged the function (same operators, literals, calls and '
